@@ -23,5 +23,6 @@ CONSTANTS
   UseTCP = FALSE
   ChanUnderLock = TRUE
   AckChanCheck = FALSE
+  Urgent = FALSE
 INVARIANTS ObsQuiet
 CHECK_DEADLOCK FALSE
